@@ -39,6 +39,19 @@ def parseTree : Nat → List Char → Option (Err × List Char)
           match parseTree fuel r with
           | none => none
           | some (c, r) => match expect ')' r with | none => none | some r => some (.wrap id.toNat ty.toNat c, r)
+    | 'N' :: r =>
+      -- a custom aggregate whose `Unwrap() []error` is `[nil, child]`: nil members are skipped, so it behaves as a wrapper of the child
+      let (id, r) := takeNum r
+      match expect ':' r with
+      | none => none
+      | some r =>
+        let (ty, r) := takeNum r
+        match expect '(' r with
+        | none => none
+        | some r =>
+          match parseTree fuel r with
+          | none => none
+          | some (c, r) => match expect ')' r with | none => none | some r => some (.wrap id.toNat ty.toNat c, r)
     | 'J' :: r =>
       let (id, r) := takeNum r
       match expect ':' r with
